@@ -243,6 +243,24 @@ func structHasField(p *Program, sn, fld string) bool {
 			return true
 		}
 	}
+	// moved into a struct of its own that sn holds (see liftMovedField)
+	for i := 0; i < st.NumFields(); i++ {
+		ft := derefType(st.Field(i).Type())
+		inner, ok := ft.Underlying().(*types.Struct)
+		if !ok {
+			continue
+		}
+		if n := namedOf(ft); n != nil {
+			if _, pinned := pinnedFields[n.Obj().Name()]; pinned {
+				continue
+			}
+		}
+		for j := 0; j < inner.NumFields(); j++ {
+			if inner.Field(j).Name() == fld {
+				return true
+			}
+		}
+	}
 	return false
 }
 
@@ -456,6 +474,15 @@ func r2Locksets(c *RuleCtx, specs []*guardSpec) {
 			fi := build(caller)
 			if held(fi, cs, r.req.mu, "", r.req.write) {
 				continue
+			}
+			// the helper is a method called on an object this caller has just allocated and not yet handed
+			// out (`rv.initFieldFSTs()` in a constructor): nobody else can see it
+			if r.fn.Signature.Recv() != nil && len(cs.Common().Args) > 0 && !cs.Common().IsInvoke() {
+				if rroot, _ := baseKey(cs.Common().Args[0]); rroot != nil {
+					if al, ok := rroot.(*ssa.Alloc); ok && al.Parent() == caller {
+						continue
+					}
+				}
 			}
 			np := append(append([]string{}, r.path...), "called from "+describeInstr(p, cs)+" in "+funcShortName(caller))
 			work = append(work, reqAt{caller, r.req, r.spec, cs, r.what, "", np})
